@@ -999,7 +999,7 @@ func (vm *Thread) run() {
 		case bytecode.NEXT16:
 			vm.throwIfErr(vm.opNext(int(vm.readUint16())))
 		case bytecode.FOR_IN_BUILTIN:
-			vm.opForInBuiltin()
+			vm.throwIfErr(vm.opForInBuiltin())
 		case bytecode.FOR_IN:
 			vm.opForIn()
 		case bytecode.GET_ITERATOR:
@@ -2616,17 +2616,23 @@ func (vm *Thread) opForIn() {
 }
 
 // Drives the for..in loop for builtin iterable types
-func (vm *Thread) opForInBuiltin() {
+func (vm *Thread) opForInBuiltin() value.Value {
 	iterator := vm.peek()
 	result, err := NextBuiltin(vm, iterator)
 	if !err.IsUndefined() {
+		if value.IsA(err, value.ExecutionAbortedErrorClass) {
+			// the thread has been aborted while waiting for the next element
+			vm.ipIncrementBy(2)
+			return err
+		}
 		vm.pop()
 		vm.ipIncrementBy(uintptr(vm.readUint16()))
-		return
+		return value.Undefined
 	}
 
 	vm.replace(result)
 	vm.ipIncrementBy(2)
+	return value.Undefined
 }
 
 // Create a new string.
